@@ -188,6 +188,28 @@ def run_unit(unit, tier='quick', _extra_fns=None):
             obligations.append(dict(id='%s.%s' % (oid, slug), engine='verus', unit=unit, kind='proof', status='fail',
                                     detail='%s — %s' % (e['kind'], where or src_line(e['line'])), raw=e['text'],
                                     twin=U.get('twins', {}).get(label)))
+    # a loop the unit has no invariant for (the edited tree wrote a loop where there was none, or in another form): without an
+    # invariant nothing after the loop can be proved, so a failed obligation of that function only says "needs an invariant"
+    lines_all = text.split('\n')
+    for a_, b_, label_, kind_ in asm.regions:
+        if kind_ != 'fn':
+            continue
+        body_ = '\n'.join(lines_all[a_ - 1:b_])
+        bare = 0
+        for lm in re.finditer(r'^[ \t]*(while|for|loop)\b', body_, re.M):
+            ob_ = body_.find('{', lm.end() - 1) if body_[lm.end() - 1:lm.end()] != '{' else lm.end() - 1
+            # the loop body opens at the first '{' that starts a line or ends the header; the spliced clauses sit before it
+            head_ = body_[lm.start():]
+            m2 = re.search(r'\n[ \t]*\{[ \t]*\n|\{[ \t]*\n', head_)
+            head_ = head_[:m2.start()] if m2 else head_[:200]
+            if not re.search(r'\b(invariant|invariant_except_break|decreases)\b', head_):
+                bare += 1
+        oid_ = '%s.%s.%s' % (pid, U['short'], label_)
+        fails_ = [o for o in obligations if o['status'] == 'fail' and (o['id'] == oid_ or o['id'].startswith(oid_ + '.'))]
+        if bare and fails_:
+            undecided.append('verus %s: %s contains %d loop(s) this unit has no invariant for: %d failed obligation(s) may only mean '
+                             'that the loop needs an invariant' % (unit, label_, bare, len(fails_)))
+            obligations = [o for o in obligations if o not in fails_]
     if _extra_fns and any(o['status'] == 'fail' for o in obligations):
         # the edited tree calls helper functions this unit has no contract for: they were extracted verbatim, but a caller only
         # sees a callee's contract, so a failed obligation here cannot be told from "the helper needs a contract" — undecided
